@@ -358,6 +358,25 @@ def _dot_cases():
             yield 'rank=%d,inplace=%s' % (n, inplace), build
 
 
+def _identity_post(f, args, res):
+    data = f.getattr(res, 'data')
+    n = data.shape[1]
+    return [('A.dot(A.invert())[l,%d,%d] == %d' % (a, b, int(a == b)),
+             f.forall(data.shape[0], lambda l, a=a, b=b: f.eq(f.elem(data, (l, a, b)), 1.0 if a == b else 0.0)))
+            for a in range(n) for b in range(n)]
+
+
+@cases(MatrixArray_dot)
+def _dot_inverse_cases():
+    for n in (1, 2):
+        for inplace in (False, True):
+            def build(f, n=n, inplace=inplace):
+                M = mk_MA(f, 'M', f.int('L', lo=1), n)
+                inv = f.call(M, 'invert')
+                return dict(self=M, other=inv, inplace=inplace)
+            yield 'rank=%d,inplace=%s, other = self.invert()' % (n, inplace), build, {'post': _identity_post}
+
+
 @contract('pyPRISM/core/MatrixArray.py::MatrixArray.__matmul__', props=['C13'])
 def MatrixArray_matmul(self, other):
     if not _spaces_compatible(self, other):
